@@ -74,6 +74,25 @@ def chain_branch(chain_if, member, flags):
     return _select([chain_if], member, flags)
 
 
+def find_region(fn, subject_pred):
+    """The dispatching `if` together with what follows it in its block (if/elif chain or guard-clause sequence)."""
+    todo = [fn.node]
+    while todo:
+        nd = todo.pop(0)
+        if isinstance(nd, (ast.FunctionDef, ast.AsyncFunctionDef, ast.Lambda, ast.ClassDef)) and nd is not fn.node:
+            continue
+        for f in ('body', 'orelse', 'finalbody'):
+            b = getattr(nd, f, None)
+            if isinstance(b, list) and b and isinstance(b[0], ast.stmt):
+                for i, st in enumerate(b):
+                    if isinstance(st, ast.If) and subject_pred(st.test):
+                        return b[i:]
+                    todo.append(st)
+        for h in getattr(nd, 'handlers', []):
+            todo.append(h)
+    return None
+
+
 def find_chain(fn, subject_pred):
     for s in walk_fn(fn):
         if isinstance(s, ast.If) and subject_pred(s.test):
@@ -148,12 +167,30 @@ def removal_relations(ctx):
     params = fn.params
     kname = params[2]
     cname = params[1]
-    chain = find_chain(fn, lambda t: 'ChoiceConstraintType' in norm(t) and 'type' in norm(t))
-    if chain is None:
+    pred = lambda t: 'ChoiceConstraintType' in norm(t) and 'type' in norm(t)  # noqa: E731
+    region = find_region(fn, pred)
+    if region is None:
+        # extract-method: the per-choice dispatch lives in a private helper; its parameters are renamed to the
+        # caller's argument names
+        from .common import unit_functions
+        for h in unit_functions(ctx.prog, fn)[1:]:
+            region = find_region(h, pred)
+            if region is None:
+                continue
+            ctx.touch(h)
+            cs = [c for c in walk_fn(fn) if isinstance(c, ast.Call) and call_name(c) == h.name]
+            if cs:
+                sub = {q: a.id for q, a in zip(h.params, cs[0].args) if isinstance(a, ast.Name)}
+                sub.update({k.arg: k.value.id for k in cs[0].keywords if isinstance(k.value, ast.Name)})
+                inv = {q: v for q, v in sub.items()}
+                kname = next((q for q, v in inv.items() if v == kname), kname)
+                cname = next((q for q, v in inv.items() if v == cname), cname)
+            break
+    if region is None:
         raise AnalysisError('get_constraint_removed_options: dispatch chain not found')
     out = {}
     for m in cct_members(ctx.prog):
-        body = chain_branch(chain, m, {})
+        body = _select(region, m, {})
         if any(isinstance(s, ast.Raise) for s in body):
             out[m] = 'raise'
             continue
@@ -184,6 +221,10 @@ def _removal_expr(body, side, cname, kname):
     for st in body:
         if isinstance(st, ast.Assign) and norm(st.targets[0]) == 'removed_opts':
             return st.value
+        if isinstance(st, ast.Return) and st.value is not None and not isinstance(st.value, ast.Name):
+            if isinstance(st.value, (ast.List, ast.Tuple)) and not st.value.elts:
+                return None     # nothing removed
+            return st.value
         if isinstance(st, ast.If):
             t = norm(st.test)
             if cname in t and ('<' in t or '>' in t):
@@ -200,8 +241,13 @@ def _removal_expr(body, side, cname, kname):
                 if not (before_first or after_first):
                     raise AnalysisError(f'A14: unrecognised side test `{t}`')
                 pick_body = (side == 'other_before') == before_first
-                return _removal_expr(st.body if pick_body else st.orelse, side, cname, kname)
-            if t == 'enough_options':
+                if pick_body:
+                    return _removal_expr(st.body, side, cname, kname)
+                if st.orelse:
+                    return _removal_expr(st.orelse, side, cname, kname)
+                continue        # guard-clause form: the other side follows
+            if t == 'enough_options' or t in (f'len(options) - 1 >= {kname}', f'{kname} <= len(options) - 1',
+                                              f'{kname} < len(options)', f'len(options) > {kname}'):
                 return _removal_expr(st.body, side, cname, kname)
             raise AnalysisError(f'A14: unrecognised nested test `{t}`')
     return None
@@ -291,26 +337,58 @@ def _checker_relation(fn, body):
                     if isinstance(c, ast.Compare) and len(c.ops) == 1 and norm(c.left).endswith('[1:]') and \
                             norm(c.comparators[0]).endswith('[0]'):
                         return {ast.Eq: '=', ast.NotEq: '!=', ast.GtE: '<=', ast.Gt: '<'}.get(type(c.ops[0]), '?')
-    # nested checker function: `if row[i] <op> row[i-1]: return False` ... return True
+    # row checker function (nested, or a module-level helper handed to the row iteration):
+    #   `if row[i] <op> row[i-1]: return False ... return True`, `return not any(row[i] <op> row[i-1] for i in ...)`,
+    #   `return all(row[i] <op> row[i-1] for i in ...)`
+    checkers = [s for s in body if isinstance(s, ast.FunctionDef)]
     for s in body:
-        if isinstance(s, ast.FunctionDef):
-            for c in ast.walk(s):
-                if isinstance(c, ast.If) and isinstance(c.test, ast.Compare) and len(c.test.ops) == 1 and \
-                        any(isinstance(r, ast.Return) and isinstance(r.value, ast.Constant) and r.value.value is False
-                            for r in c.body):
-                    l, r = norm(c.test.left), norm(c.test.comparators[0])
-                    # later = row[i], earlier = row[i-1]
-                    later_first = l.endswith('[i_value]') and r.endswith('[i_value - 1]')
-                    earlier_first = l.endswith('[i_value - 1]') and r.endswith('[i_value]')
-                    if not (later_first or earlier_first):
-                        raise AnalysisError(f'A14: unrecognised row comparison `{norm(c.test)}`')
-                    op = type(c.test.ops[0])
-                    # rejected when (later op earlier); kept = complement
-                    if later_first:
-                        kept = {ast.Lt: '<=', ast.LtE: '<', ast.Gt: '>=', ast.GtE: '>', ast.Eq: '!=', ast.NotEq: '='}
-                    else:
-                        kept = {ast.Gt: '<=', ast.GtE: '<', ast.Lt: '>=', ast.LtE: '>', ast.Eq: '!=', ast.NotEq: '='}
-                    return kept.get(op, '?')
+        for c in ast.walk(s):
+            if isinstance(c, ast.Call):
+                for a_ in c.args:
+                    if isinstance(a_, ast.Name):
+                        h = fn.nested.get(a_.id) or fn.module.functions.get(a_.id)
+                        if h is not None and h.node not in checkers and len(h.params) == 1:
+                            checkers.append(h.node)
+    _INV = {ast.Lt: ast.GtE, ast.LtE: ast.Gt, ast.Gt: ast.LtE, ast.GtE: ast.Lt, ast.Eq: ast.NotEq, ast.NotEq: ast.Eq}
+    for s in checkers:
+        found = []   # (compare, rejected_when_true)
+        for c in ast.walk(s):
+            if isinstance(c, ast.If) and isinstance(c.test, ast.Compare) and len(c.test.ops) == 1 and \
+                    any(isinstance(r, ast.Return) and isinstance(r.value, ast.Constant) and r.value.value is False
+                        for r in c.body):
+                found.append((c.test, True))
+            if isinstance(c, ast.Return) and c.value is not None:
+                v, neg = c.value, False
+                if isinstance(v, ast.UnaryOp) and isinstance(v.op, ast.Not):
+                    v, neg = v.operand, True
+                if isinstance(v, ast.Call) and isinstance(v.func, ast.Name) and v.func.id in ('any', 'all') and \
+                        len(v.args) == 1 and isinstance(v.args[0], (ast.GeneratorExp, ast.ListComp)) and \
+                        isinstance(v.args[0].elt, ast.Compare) and len(v.args[0].elt.ops) == 1:
+                    if v.func.id == 'any' and neg:
+                        found.append((v.args[0].elt, True))
+                    elif v.func.id == 'all' and not neg:
+                        found.append((v.args[0].elt, False))
+        for cmp_, rejected in found:
+            l, r = cmp_.left, cmp_.comparators[0]
+            if not (isinstance(l, ast.Subscript) and isinstance(r, ast.Subscript)):
+                raise AnalysisError(f'A14: unrecognised row comparison `{norm(cmp_)}`')
+
+            def prev_of(a_, b_):
+                # b_ indexes the element before a_
+                return norm(b_.slice) == f'{norm(a_.slice)} - 1' or norm(a_.slice) == f'{norm(b_.slice)} + 1'
+            later_first = prev_of(l, r)
+            earlier_first = prev_of(r, l)
+            if not (later_first or earlier_first):
+                raise AnalysisError(f'A14: unrecognised row comparison `{norm(cmp_)}`')
+            op = type(cmp_.ops[0])
+            if rejected:
+                op = _INV.get(op)
+            # op now relates (left, right) of a kept row; express as earlier <rel> later
+            if later_first:
+                kept = {ast.GtE: '<=', ast.Gt: '<', ast.LtE: '>=', ast.Lt: '>', ast.NotEq: '!=', ast.Eq: '='}
+            else:
+                kept = {ast.LtE: '<=', ast.Lt: '<', ast.GtE: '>=', ast.Gt: '>', ast.NotEq: '!=', ast.Eq: '='}
+            return kept.get(op, '?')
     raise AnalysisError(f'A14: unrecognised validity checker: {txt[:100]}')
 
 
